@@ -138,15 +138,19 @@ def run(ctx):
     if not ctx.thorough:
         words = [w for i, w in enumerate(words) if i % 3 == ctx.seed % 3] + ["interval", "top", "select", "from", "order", "end"]
     hazards = {}
-    for w in words:
-        for pn, mk in POS.items():
-            for ansi in (True, False):
-                okrt, s, back = roundtrip(mk(w), ansi)
-                ctx.count(1, ("word", w, pn, ansi))
-                if not okrt:
-                    hazards.setdefault(w, []).append((pn, ansi, s, back))
+    for w0 in words:
+        # keywords are matched caselessly by the grammar: every spelling of the word needs the same care
+        for w in (w0, w0.capitalize(), w0.upper(), w0[:1] + w0[1:].upper()):
+            for pn, mk in POS.items():
+                for ansi in (True, False):
+                    if w != w0 and (hash((w, pn)) + ctx.seed) % 3 and not ctx.thorough:
+                        continue
+                    okrt, s, back = roundtrip(mk(w), ansi)
+                    ctx.count(1, ("word", w, pn, ansi))
+                    if not okrt:
+                        hazards.setdefault(w, []).append((pn, ansi, s, back))
     for w, hs in sorted(hazards.items()):
-        key = "C07:bare-keyword:" + w
+        key = "C07:bare-keyword:" + w.lower()
         if key in known:
             ctx.known(key, "%s e.g. %s" % (known[key]["what"], known[key]["witness"]))
             continue
